@@ -11,6 +11,7 @@ ALL = ['C%02d' % i for i in range(1, 21)]
 
 def main():
     checks, na = [], []
+    allowed = set(open(os.path.join(VERIF, 'harness', 'claimed.txt')).read().split())
     for pid in ALL:
         path = os.path.join(VERIF, 'harness', 'props', pid + '.py')
         claim = None
@@ -18,7 +19,7 @@ def main():
             src = open(path).read()
             ns = {}
             # CLAIM is a literal dict at the end of the module, evaluated without importing rxsci
-            if '\nCLAIM = ' in src:
+            if '\nCLAIM = ' in src and pid in allowed:
                 exec('CLAIM = ' + src.split('\nCLAIM = ', 1)[1], ns)
                 claim = ns['CLAIM']
         if claim is None:
